@@ -720,9 +720,13 @@ class Engine:
             ln, arr = s.accessor(0, 0), s.accessor(0, 1)
             i = z3.Const(f"eqi{next(_cellc)}", z3.IntSort())
             body = self._eq_t(z3.Select(arr(x), i), z3.Select(arr(y), i), t.args[0])
-            return z3.And(ln(x) == ln(y),
-                          z3.ForAll([i], z3.Implies(z3.And(0 <= i, i < ln(x)), body),
-                                    patterns=[z3.Select(arr(x), i), z3.Select(arr(y), i)]))
+            qb = z3.Implies(z3.And(0 <= i, i < ln(x)), body)
+            pats = [p_ for p_ in (z3.Select(arr(x), i), z3.Select(arr(y), i)) if self._pattern_safe(p_)]
+            try:
+                q = z3.ForAll([i], qb, patterns=pats) if pats else z3.ForAll([i], qb)
+            except z3.Z3Exception:
+                q = z3.ForAll([i], qb)
+            return z3.And(ln(x) == ln(y), q)
         if k == "dict":
             s = self.w.sort(t)
             has, val = s.accessor(0, 0), s.accessor(0, 1)
